@@ -20,6 +20,7 @@ CLASSES = ["valid", "valid", "valid", "valid", "repeat", "foreign", "truncated",
 
 class C07(Prop):
     id = "C07"
+    tour_noisy = False
     level = "exploration"
     technique = "offline exactly-once / per-port-order checker over the callback log of a running multi-port bridge (unique tags, sentinel barriers, raising callbacks, seeded cross-port send order)"
     rule = ("history = 20..200 datagrams over {valid broadcast of each family, exact repeat of the previous valid one, foreign bytes, truncated, "
